@@ -77,8 +77,14 @@ class FakeCluster(object):
     def connection_factory(self, endpoint, on_orphaned_stream_released=None):
         return self.h._make_conn(on_orphaned_stream_released)
 
+    raise_once = False
+
     def signal_connection_failure(self, host, exc, is_host_addition=False):
         self.failures += 1
+        if self.raise_once:
+            # e.g. the executor / scheduler behind Cluster.signal_connection_failure is shutting down, or a listener throws
+            self.raise_once = False
+            raise RuntimeError('signal_connection_failure raised (executor shutting down)')
         return False
 
     def on_down(self, host, is_host_addition=False):
@@ -243,9 +249,10 @@ class HPool(HostConnection):
             h.emit('OwnerReturn' if notify else 'ReturnConn')
             if notify:
                 h.event([12])
-        r = HostConnection.return_connection(self, connection, stream_was_orphaned)
-        h.checkpoint()
-        return r
+        try:
+            return HostConnection.return_connection(self, connection, stream_was_orphaned)
+        finally:
+            h.checkpoint()
 
 
 class Harness(object):
@@ -293,6 +300,7 @@ class Harness(object):
         self.inflight_hook = None
         self.traffic = False              # a frame was processed since the last heartbeat round
         self.hb_race_ran = 0
+        self.hb_stale_waits = 0
         self.in_hb_round = False
         self.hb_waited_ok = False
         self.hb_seq = 0
